@@ -1,0 +1,19 @@
+//go:build verif
+
+// Contracts for the deductive verifier under /verif (foxvc): host normalisation
+// (property C09). Comments only.
+
+package netutil
+
+//@ package netutil
+
+//@ -- port and one trailing dot removed; without a colon only the dot rule applies, and a host that
+//@ -- net.SplitHostPort rejects is returned unchanged
+//@ func StripHostPort props C09 pure
+//@   ensures empty: len(h) == 0 ==> len(result) == 0
+//@   ensures no-colon-dot: len(h) > 0 && (forall i int :: {h[i]} 0 <= i && i < len(h) ==> h[i] != ':') && h[len(h)-1] == '.' ==> result == h[:len(h)-1]
+//@   ensures no-colon: len(h) > 0 && (forall i int :: {h[i]} 0 <= i && i < len(h) ==> h[i] != ':') && h[len(h)-1] != '.' ==> result == h
+
+//@ func SplitHostZone props C09,C18
+//@   ensures nozone: (forall i int :: {s[i]} 1 <= i && i < len(s) ==> s[i] != '%') ==> host == s && len(zone) == 0
+//@   ensures zone: (exists i int :: 1 <= i && i < len(s) && s[i] == '%') ==> len(host) + 1 + len(zone) == len(s) && host == s[:len(host)] && s[len(host)] == '%' && zone == s[len(host)+1:] && forall i int :: {s[i]} len(host) < i && i < len(s) ==> s[i] != '%'
